@@ -503,6 +503,61 @@ def handleLdaBig (args impl : List String) : Option Reply := do
           | none => "bad:row_order"
   pure (exactNarrow model (join impl) spec)
 
+/-! ### `fdrrun`: the REAL `Runner::run`, whose private `spectrum_fdr` holds the heuristic fallback -/
+
+structure FdrRow where
+  label : Int
+  poisson : Float
+  lyp : Float32
+  disc : Float32
+  ln1p : Float32
+  sq : Float32
+
+def fdrRow : P FdrRow := do
+  let label ← int; let poisson ← f64; let lyp ← f32; let disc ← f32; let ln1p ← f32; let sq ← f32
+  pure { label, poisson, lyp, disc, ln1p, sq }
+
+/-- `fdrrun decoys fasta mgf | n (label poisson lyp disc ln1p spectrum_q)*n`.
+    When only one class is present among the reported PSMs the LDA cannot have been fitted (`train` has an
+    empty class: `score_psms` returns `None`), so `Runner::spectrum_fdr` must have written the heuristic
+    `(-poisson as f32).ln_1p() + longest_y_pct / 3.0`: the model recomputes it bit-exactly in `Float32`
+    (one f64→f32 cast, one f32 division, one f32 addition) from the implementation's own `poisson` and
+    `longest_y_pct`; `ln_1p` is not available in Lean, so its value is DATA from the harness (Rust's
+    `f32::ln_1p` of the same argument), accepted only within 4 f32 ulps of an independent f64 evaluation
+    (`ln1pRef`: `log(1+x)·x/((1+x)−1)`). Spec: every in-domain PSM (poisson finite and ≤ 0, longest_y_pct
+    finite) has a finite score (`bad:fallback_not_finite`) equal to the heuristic (`bad:fallback_ne_heuristic`),
+    and in decreasing score order the spectrum q-values never decrease (`bad:fallback_order`). -/
+def handleFdrRun (impl : List String) : Option Reply := do
+  if impl == ["panic"] then
+    return { model := "-", agree := false, spec := "bad:panic" }
+  match impl with
+  | [e] => if e.startsWith "err:" then return { model := "-", agree := false, spec := "bad:" ++ e } else pure ()
+  | _ => pure ()
+  let rows ← run (list fdrRow) impl
+  let single := rows.all (fun r => r.label == 1) || rows.all (fun r => r.label == -1)
+  let heuristic (r : FdrRow) : Float32 :=
+    fallback (α := Float32) (β := Float) Float.toFloat32 (fun _ => r.ln1p) 3.0 r.poisson r.lyp
+  let discM : List Float32 := rows.map fun r => if single then heuristic r else r.disc
+  let model := join (toString rows.length ::
+    ((rows.zip discM).flatMap fun (r, d) =>
+      [toString r.label, outF r.poisson, outF32c r.lyp, outF32c d, outF32c r.ln1p, outF32c r.sq]))
+  let spec : String :=
+    let badLn := rows.any fun r =>
+      let want := ln1pRef (-r.poisson).toFloat32
+      !((want.isNaN && r.ln1p.isNaN) || (!want.isNaN && !r.ln1p.isNaN && ulpDistF32 want r.ln1p ≤ 4))
+    if badLn then "bad:ln1p_value" else
+    let inDomain (r : FdrRow) : Bool := r.poisson.isFinite && decide (r.poisson ≤ 0.0) && r.lyp.isFinite
+    if rows.any (fun r => inDomain r && !r.disc.isFinite) then "bad:fallback_not_finite" else
+    if !single then "ok" else
+    if (rows.zip discM).any (fun (r, d) => inDomain r && outF32c r.disc != outF32c d) then "bad:fallback_ne_heuristic" else
+    -- ordering consequence: PSMs taken in decreasing score order have non-decreasing spectrum q-values
+    let sorted := (rows.filter inDomain).toArray.qsort (fun a b => a.disc > b.disc) |>.toList
+    let rec mono : List FdrRow → Bool
+      | a :: b :: rest => (a.disc == b.disc || decide (a.sq ≤ b.sq)) && mono (b :: rest)
+      | _ => true
+    if mono sorted then "ok" else "bad:fallback_order"
+  pure (exact model (join impl) spec)
+
 def handle (op : String) (args impl : List String) : Option Reply :=
   match op with
   | "gauss" => do
@@ -542,6 +597,7 @@ def handle (op : String) (args impl : List String) : Option Reply :=
     pure (exactNarrow model (join impl) (specLda n p F decoy perm impl))
   | "scorepsms" => handleScorePsms args impl
   | "ldabig" => handleLdaBig args impl
+  | "fdrrun" => handleFdrRun impl
   | "scorepsmst" => handleScorePsms (args.drop 1) impl
   | _ => none
 
